@@ -223,6 +223,7 @@ func harnesses(r *fw.Run) []fw.HarnessSpec {
 				absent = append(absent, k)
 			}
 		}
+		prevSel := c.ChooseFree(4) // 0: fresh prover; 1..3: an earlier query on the same prover (rotating over absent and present keys)
 		ki := c.ChooseFree(len(es) + len(absent))
 		var key bits.Bits
 		wantVal := int64(-1)
@@ -232,7 +233,7 @@ func harnesses(r *fw.Run) []fw.HarnessSpec {
 		} else {
 			key = absent[ki-len(es)]
 		}
-		c.Case([]byte(fmt.Sprintf("dict/%d/%v/%d/%s", n, keysOf(es), encoder, key)), true)
+		c.Case([]byte(fmt.Sprintf("dict/%d/%v/%d/%s/%d", n, keysOf(es), encoder, key, prevSel)), true)
 		c.Sample(map[string]any{"key_bits": n, "keys": len(es), "encoder": []string{"reference-canonical", "tongo"}[encoder], "proven_key_present": wantVal >= 0})
 		c.Label("width %d keys %v encoder %d key %s", n, keysOf(es), encoder, key)
 		c.Try("panic:dict-proof", func() {
@@ -280,6 +281,14 @@ func harnesses(r *fw.Run) []fw.HarnessSpec {
 			if err != nil {
 				c.Fail("prover-error", "%v", err)
 				return
+			}
+			// one prover serves several queries: an earlier query (for a present or an absent key, chosen freely) must
+			// leave nothing behind that changes the proof of this one
+			if prevSel > 0 {
+				all := append(append([]bits.Bits{}, absent...), keysOf2(es)...)
+				pk := all[(prevSel-1)%len(all)]
+				_, _, _ = tlb.ProveKeyInHashmap[tlb.Uint32](prover, root, bitString(pk))
+				root.ResetCounters()
 			}
 			val, proof, err := tlb.ProveKeyInHashmap[tlb.Uint32](prover, root, bitString(key))
 			if wantVal < 0 {
@@ -513,4 +522,12 @@ func lookupT[K keyC](root *tb.Cell, find func([]bits.Bits, []tlb.Uint32) (int64,
 	}
 	v, ok := find(ks, h.Values())
 	return v, ok, nil
+}
+
+func keysOf2(es []dict.Entry) []bits.Bits {
+	var out []bits.Bits
+	for _, e := range es {
+		out = append(out, e.Key)
+	}
+	return out
 }
